@@ -131,7 +131,8 @@ def constant_rhs_species(rxns):
 
 def zero_order_unit_source(rxns):
     """Some zero-order reaction produces a species with net coefficient exactly 1 that another reaction also
-    changes: its rate term is then the bare parameter symbol (see known finding C10-D1)."""
+    changes: its rate term is then the bare parameter symbol (defect C10-D1, repaired in /repo a383086; kept as a detail
+    field so that a regression is easy to recognise)."""
     for r in rxns:
         if order_of(r) == 0:
             for s in r["prod"]:
@@ -145,8 +146,8 @@ def species_of(rxns):
 
 
 @st.composite
-def system_cases(draw, nreg=2, max_rxns=4, conserving=False, named=None, general_ok=True):
-    n = draw(st.integers(1, max_rxns))
+def system_cases(draw, nreg=2, max_rxns=4, conserving=False, named=None, general_ok=True, min_rxns=1):
+    n = draw(st.integers(min_rxns, max_rxns))
     rxns = [draw(reactions(conserving, general_ok)) for _ in range(n)]
     # by construction: a zero-order source feeds a species that some reaction of order >= 1 also changes
     fed = sorted(set(s for r in rxns if order_of(r) >= 1 for s in SPECIES if _net(r, s) != 0))
@@ -464,7 +465,7 @@ def integrate_cases(draw):
     case["t_end"] = {"mag": _mag_for(t_si, [[tu, 1]]), "units": [[tu, 1]]}
     case["out_conc"] = draw(st.sampled_from(OUT_CONC))
     case["out_time"] = draw(st.sampled_from(OUT_TIME))
-    case["path"] = draw(st.sampled_from(["get_odesys", "get_odesys", "create_odesys"]))
+    case["path"] = draw(st.sampled_from(["get_odesys", "create_odesys"]))
     if case["path"] == "create_odesys":
         case["named"] = True
     return case
@@ -615,7 +616,7 @@ def _unit_is(q, units):
 
 @st.composite
 def validate_cases(draw):
-    case = draw(system_cases(nreg=1, max_rxns=3, named=True))
+    case = draw(system_cases(nreg=1, min_rxns=2, max_rxns=4, named=True))
     case["break"] = None
     if draw(st.integers(0, 9)) >= 6:
         j = draw(st.integers(0, len(case["rxns"]) - 1))
@@ -679,17 +680,17 @@ SUBCHECKS = [
     SubCheck("equilibrium", check_equilibrium, strategy=equilibrium_cases(), quick=600, thorough=50000,
              rule="Equilibrium with a constant of wrong dimension (exponent off, extra dimension, per time) must raise; "
                   "right-dimension constants are only recorded"),
-    SubCheck("rates", check_rates, strategy=system_cases(named=False), quick=100, thorough=2500,
+    SubCheck("rates", check_rates, strategy=system_cases(named=False), quick=200, thorough=2500,
              rule="1-4 reactions with unit-carrying constants; SI + 2 random registries; f_cb and to_arrays",
              tolerances={"rate_rel_of_sum_abs_terms": RATE_TOL, "conversion_rel": CONV_TOL}),
-    SubCheck("rates_named", check_rates, strategy=system_cases(named=True), quick=100, thorough=2500,
+    SubCheck("rates_named", check_rates, strategy=system_cases(named=True), quick=200, thorough=2500,
              rule="same with include_params=False and named parameters: extra['p_units'], parameters fed as quantities",
              tolerances={"rate_rel_of_sum_abs_terms": RATE_TOL, "conversion_rel": CONV_TOL}),
-    SubCheck("integrate", check_integrate, strategy=integrate_cases(), quick=60, thorough=2000,
+    SubCheck("integrate", check_integrate, strategy=integrate_cases(), quick=100, thorough=2000,
              rule="molecule-number non-increasing systems, t_end 0.1-2 s; integrate() / unit_aware_solve with "
                   "quantities; output units; SI + 1 random registry; reference = scipy LSODA on the hand-written rhs",
              tolerances={"trajectory_rel_of_max_conc": 1e-5}),
-    SubCheck("validate", check_validate, strategy=validate_cases(), quick=60, thorough=2000,
+    SubCheck("validate", check_validate, strategy=validate_cases(), quick=100, thorough=2000,
              rule="_create_odesys(...)['validate']: rates equal the hand computation; one constant with an extra "
                   "dimension must raise", tolerances={"rate_rel_of_sum_abs_terms": RATE_TOL}),
 ]
